@@ -12,7 +12,7 @@ import (
 func init() { props["C22"] = checkC22 }
 
 func checkC22(r *Run) {
-	r.Explain = "C22: (R1) decodeData consumes a frame only after: length prefix decoded, 4 <= length <= max, the whole frame is buffered; every consumed frame is copied into a fresh slice filled by a successful Read and appended; every non-error return hands back the accumulated frames (none consumed is dropped); the loop runs while more than a prefix is buffered; an invalid length is the only disconnect reason; (R2) convertToMessage succeeds only for a known id, a body that decodes, and no trailing bytes, and its rejections are exactly the four documented disconnect reasons; deserialization runs under a deferred recover; (R3) the 12 registered message types have distinct 4-byte prefixes, implement gnet.Message, decode with their generated codec (or carry no body) and are dispatched asynchronously; (R4) bounds of the slices over received bytes."
+	r.Explain = "(R1+) in the read loop every successful append to the connection buffer is followed by decodeData before the next read, and every frame decodeData returns is offered to the message channel in order; C22: (R1) decodeData consumes a frame only after: length prefix decoded, 4 <= length <= max, the whole frame is buffered; every consumed frame is copied into a fresh slice filled by a successful Read and appended; every non-error return hands back the accumulated frames (none consumed is dropped); the loop runs while more than a prefix is buffered; an invalid length is the only disconnect reason; (R2) convertToMessage succeeds only for a known id, a body that decodes, and no trailing bytes, and its rejections are exactly the four documented disconnect reasons; deserialization runs under a deferred recover; (R3) the 12 registered message types have distinct 4-byte prefixes, implement gnet.Message, decode with their generated codec (or carry no body) and are dispatched asynchronously; (R4) bounds of the slices over received bytes."
 	r.NotDec = "delivery order under arbitrary chunkings as a history property (the per-call structural conditions above are necessary for it)"
 	const dd = "daemon/gnet.decodeData"
 	fn := r.fn("C22-R1", dd)
